@@ -427,7 +427,7 @@ fn chain_and_self_family(acc: &mut Stats) {
             let text = format!("print: fn *X -> void : external\n{}\n", perm.iter().map(|k| items[*k].clone()).collect::<Vec<_>>().join("\n"));
             acc.evaluations += 1;
             let rejected_as_cycle = match compile_src(&text) {
-                Outcome::Err { errs, .. } => errs.iter().any(|e| e.dbg.contains("ependency")),
+                Outcome::Err { errs, .. } => errs.iter().any(|e| is_cycle_error(&e.dbg)),
                 _ => false,
             };
             verdicts.push((rejected_as_cycle, text));
@@ -441,6 +441,12 @@ fn chain_and_self_family(acc: &mut Stats) {
             acc.outcome("self-dependency:rejected-in-every-order");
         }
     }
+}
+
+/// a rejection that names a dependency / initialisation cycle, whatever its exact wording
+fn is_cycle_error(text: &str) -> bool {
+    let t = text.to_lowercase();
+    t.contains("ependency") || t.contains("cycl") || t.contains("circular")
 }
 
 fn ext() -> Top {
@@ -656,7 +662,7 @@ pub fn run(run: &mut Run) {
         }
         if accepted == 0 {
             if cyclic {
-                if results.iter().all(|r| r.1.as_ref().err().map(|e| e.contains("Dependency cycle") || e.contains("ependency")).unwrap_or(false)) {
+                if results.iter().all(|r| r.1.as_ref().err().map(|e| is_cycle_error(e)).unwrap_or(false)) {
                     acc.outcome("cyclic:rejected-in-every-order");
                 } else {
                     let r = &results[0];
